@@ -183,6 +183,10 @@ class ProbUGrammar(TaggedUGrammar[float, U, V, W]):
         self.sampling_map: Dict[Tuple[Type, U], List[DerivableProgram]] = {}
         self._vose_samplers_2: Dict[Tuple[Type, U], Dict[DerivableProgram, Any]] = {}
 
+        # Every sampler gets its own seed (two samplers with equal seeds draw the same stream):
+        # seed + i for the rules of the i-th non-terminal, seed + len(tags) for the start symbol,
+        # and the following integers for the alternatives of each rule.
+        alt_seed = len(self.tags) + 1
         for i, S in enumerate(self.tags):
             P_list = list(self.tags[S].keys())
             self.vose_samplers[S] = VoseSampler(
@@ -200,8 +204,9 @@ class ProbUGrammar(TaggedUGrammar[float, U, V, W]):
                         dtype=float,
                     )
                     / sum(p for p in self.tags[S][P].values()),
-                    seed=seed + 7 * i if seed else None,
+                    seed=seed + alt_seed if seed else None,
                 )
+                alt_seed += 1
             self.sampling_map[S] = P_list
         # same order as the weights handed to the start sampler (a set has no reliable order)
         self._int2start = list(self.start_tags.keys())
